@@ -36,7 +36,7 @@ NLINES = int(PARAMS.get("nlines", 3))
 REPLACE = bool(PARAMS.get("replace", True))
 MERGE = bool(PARAMS.get("merge", False))
 FIRST = PARAMS.get("first")  # fix the kind of the first line
-KINDS = ["blank", "ws", "code", "indented", "own-comment", "foreign-comment", "old-header", "shebang", "absent", "late-shebang", "long-header"]
+KINDS = ["blank", "ws", "code", "indented", "own-comment", "foreign-comment", "old-header", "shebang", "absent", "late-shebang", "long-header", "quoting-code", "old-header-then-code"]
 ALLOWED = PARAMS.get("kinds", list(range(10)))  # "long-header" (a header of more than 4 KiB) only on request
 
 OLD_C = "SPDX-FileCopyrightText: 2019 Old Holder"
@@ -49,6 +49,13 @@ if PARAMS.get("request") == "two-years":
     NEW_C = cr.make_copyright_line("Jane Doe", _ca.get_year(["2016", "2019"], False), "spdx")
 NEW_L = "GPL-3.0-or-later"
 NEW_F = "Alice Example"
+if PARAMS.get("request") == "case-twin":
+    # the request differs from what the file already declares only in letter case
+    NEW_C = "SPDX-FileCopyrightText: 2019 OLD HOLDER"
+    NEW_F = "OLD CONTRIBUTOR"
+if PARAMS.get("request") == "terminator-inside":
+    # the holder contains the style's multi-line terminator in the middle of its text
+    NEW_C = "SPDX-FileCopyrightText: 2020 Maintainers of src/" + (STYLE.MULTI_LINE.end or "*/") + "/vendor"
 
 
 def _own_comment(text):
@@ -76,6 +83,8 @@ def old_header(n_holders=1):
         lines = {OLD_C} | {f"SPDX-FileCopyrightText: 20{i % 90 + 10} Holder Number {i} <holder{i}@example.org>" for i in range(n_holders - 1)}
     if OLD_KIND == "contributor-only":
         info = ReuseInfo(contributor_lines={OLD_F})
+    elif OLD_KIND == "licence-only":
+        info = ReuseInfo(spdx_expressions={ex._LICENSING.parse(OLD_L)})
     else:
         info = ReuseInfo(spdx_expressions={ex._LICENSING.parse(OLD_L)}, copyright_lines=lines, contributor_lines={OLD_F})
     out = hd._create_new_header(info, style=STYLE, force_multi=MULTI)
@@ -104,6 +113,16 @@ def line_of(kind, i):
         return old_header().split("\n")
     if kind == "long-header":
         return old_header(80).split("\n")
+    if kind == "quoting-code":
+        # a code line that quotes the text of the (one-line) header verbatim, e.g. a banner constant
+        h = old_header()
+        return [f'banner{i} = "' + h + '"'] if "\n" not in h else [f"x{i} = {i}"]
+    if kind == "old-header-then-code":
+        # a multi-line header whose closing marker shares its line with code (as minifiers emit it)
+        ls = old_header().split("\n")
+        if len(ls) < 2 or not ls[-1].rstrip().endswith(STYLE.MULTI_LINE.end or "\0"):
+            return [f"x{i} = {i}"]
+        return ls[:-1] + [ls[-1] + f"!function(e){{}}(window{i});"]
     if kind == "shebang":
         sb = STYLE.SHEBANGS[0] if STYLE.SHEBANGS else "#!"
         return [sb + "/usr/bin/env thing"]
@@ -180,6 +199,8 @@ def new_info():
         return ReuseInfo(spdx_expressions={ex._LICENSING.parse(NEW_L)})
     if REQUEST in ("copyright-only", "two-years"):
         return ReuseInfo(copyright_lines={NEW_C})
+    if REQUEST == "terminator-inside":
+        return ReuseInfo(spdx_expressions={ex._LICENSING.parse(NEW_L)}, copyright_lines={NEW_C})
     return ReuseInfo(spdx_expressions={ex._LICENSING.parse(NEW_L)}, copyright_lines={NEW_C}, contributor_lines={NEW_F})
 
 
@@ -258,9 +279,9 @@ def acc_story(k0, k1, k2, k3, final_nl):
     after = read(out)
     if after is None:
         return "the annotated file cannot be read any more", items, text, out, before, after
-    want_c = set(before[0]) | ({NEW_C} if REQUEST in ("full", "copyright-only", "two-years") else set())
-    want_l = set(before[1]) | ({NEW_L} if REQUEST in ("full", "licence-only") else set())
-    want_f = set(before[2]) | ({NEW_F} if REQUEST in ("full", "contributor-only") else set())
+    want_c = set(before[0]) | ({NEW_C} if REQUEST in ("full", "copyright-only", "two-years", "case-twin", "terminator-inside") else set())
+    want_l = set(before[1]) | ({NEW_L} if REQUEST in ("full", "licence-only", "case-twin", "terminator-inside") else set())
+    want_f = set(before[2]) | ({NEW_F} if REQUEST in ("full", "contributor-only", "case-twin") else set())
     if MERGE:
         # same holders remain, each with a year range covering all years stated before
         def holders(notices):
@@ -372,7 +393,7 @@ def keep_story(k0, k1, k2, k3, final_nl):
     def block_problem(inserted):
         """None if `inserted` is exactly one header block of the file's style holding the new information."""
         info = read("\n".join(inserted))
-        marker_ok = info is not None and ((NEW_C in info[0]) if REQUEST in ("full", "copyright-only", "two-years") else (NEW_L in info[1]) if REQUEST == "licence-only" else (NEW_F in info[2]))
+        marker_ok = info is not None and ((NEW_C in info[0]) if REQUEST in ("full", "copyright-only", "two-years", "case-twin", "terminator-inside") else (NEW_L in info[1]) if REQUEST == "licence-only" else (NEW_F in info[2]))
         if not marker_ok:
             return "the inserted block is not the new header", {"inserted": inserted[:6]}
         if STYLE is not cm.EmptyCommentStyle:
@@ -383,6 +404,11 @@ def keep_story(k0, k1, k2, k3, final_nl):
                 ends = [n for n, l in enumerate(inserted) if l.rstrip().endswith(STYLE.MULTI_LINE.end)]
                 good = bool(inserted) and inserted[0].startswith(STYLE.MULTI_LINE.start) and bool(ends) and ends[0] == len(inserted) - 1
                 stray = [] if good else (inserted[(ends[0] + 1) :] if ends and ends[0] < len(inserted) - 1 else ["<not one terminated block>"])
+                if good:
+                    # a comment closes at the FIRST occurrence of its terminator, wherever on a line that is
+                    inner = [l for l in inserted[:-1] if STYLE.MULTI_LINE.end in l] + ([inserted[-1]] if inserted[-1].rstrip()[: -len(STYLE.MULTI_LINE.end)].find(STYLE.MULTI_LINE.end) >= 0 else [])
+                    if inner:
+                        stray = ["<the comment closes early> " + inner[0]]
             if stray:
                 return "stray text was left next to the header", {"stray": stray[:3]}
         return None
@@ -666,11 +692,11 @@ def fileread_story(k0, k1, e, final_nl, bom):
     except Exception as exc:  # noqa
         return "the linter cannot read the file annotate wrote: " + type(exc).__name__, items, raw, got, None
     seen = (sorted(info.copyright_lines), sorted(str(x) for x in info.spdx_expressions), sorted(info.contributor_lines))
-    if REQUEST in ("full", "copyright-only", "two-years") and NEW_C not in info.copyright_lines:
+    if REQUEST in ("full", "copyright-only", "two-years", "case-twin", "terminator-inside") and NEW_C not in info.copyright_lines:
         return "the requested copyright notice is not read back from the written file", items, raw, got, seen
-    if REQUEST in ("full", "licence-only") and NEW_L not in seen[1]:
+    if REQUEST in ("full", "licence-only", "case-twin", "terminator-inside") and NEW_L not in seen[1]:
         return "the requested licence is not read back from the written file", items, raw, got, seen
-    if REQUEST in ("full", "contributor-only") and NEW_F not in info.contributor_lines:
+    if REQUEST in ("full", "contributor-only", "case-twin") and NEW_F not in info.contributor_lines:
         return "the requested contributor is not read back from the written file", items, raw, got, seen
     return None, items, raw, got, seen
 
